@@ -134,6 +134,7 @@ class BinaryCNet(ORNode):
         self.or_id = root.or_id
         self.children = root.children
         self.weights = root.weights
+        self.clt = root.clt
 
     def fit_clt(
         self,
